@@ -126,9 +126,9 @@ class Geometry:
                 )
 
         else:
-            # Scalar case.
-            if not all([i == j for i, j in zip(fetched_shape, self.num_voxels)]):
-                self.cached_voxel_volume = self.voxel_volume * scaling
+            # Scalar case. Always rescale the original voxel volume (scaling is 1 for
+            # data in the native resolution); the cache must not survive a resized call.
+            self.cached_voxel_volume = self.voxel_volume * scaling
 
         # ! ---- Perform spatial integration
         if isinstance(data, np.ndarray):
